@@ -38,6 +38,7 @@ func runC17(c *report.Ctx) {
 	c.Clause("3 classification and reset")
 	checkTrailerDeclarations(c)
 	checkResponseAlwaysCancellable(c)
+	checkCancelClosesConnection(c)
 	checkPayloadCopy(c)
 	c.Clause("4 token bucket")
 	checkTokenBucket(c)
